@@ -64,6 +64,27 @@ func (v *validCommon) initValid2FieldsMap(data *name2Value) {
 	v.valid2FieldsMap[data.validName] = append(v.valid2FieldsMap[data.validName], data)
 }
 
+// requiredMissing 验证规则中标记了 required, 但输入(map/url)中不存在的 key
+// seen 为输入中出现过的 key, nameFn 用于生成错误信息中的字段名
+func requiredMissing(errBuf *strings.Builder, ruleObj RM, seen map[string]struct{}, nameFn func(key string) string) {
+	for key, validNames := range ruleObj {
+		if _, ok := seen[key]; ok || key == "" {
+			continue
+		}
+		for _, validName := range ValidNamesSplit(validNames) {
+			validKey, _, cusMsg := ParseValidNameKV(validName)
+			if validKey != Required {
+				continue
+			}
+			if cusMsg != "" {
+				errBuf.WriteString(GetJoinValidErrStr("", nameFn(key), "", cusMsg))
+				continue
+			}
+			errBuf.WriteString(GetJoinValidErrStr("", nameFn(key), "", ExplainEn, "it is", Required))
+		}
+	}
+}
+
 // either 判断两者不能都为空
 func (v *validCommon) either(errBuf *strings.Builder, fieldInfos []*name2Value) {
 	l := len(fieldInfos)
